@@ -345,4 +345,203 @@ Proof.
   intros s3 u H3. eapply stq_post_trans; eauto.
 Qed.
 
+(* ------------------------------------------------------------------ split_tx_queue_into_segments *)
+(* the size of a freshly cut MTU probe: above min_ss, at most the midpoint (+1) and max_ss *)
+Definition PB (ss : segsizes) (z : Z) : Prop :=
+  min_ss ss < z <= Z.min (min_ss ss + (max_ss ss - min_ss ss) / 2 + 1) (max_ss ss).
+
+Lemma PB_ext ss ss' z : min_ss ss' = min_ss ss -> max_ss ss' = max_ss ss -> PB ss z -> PB ss' z.
+Proof. unfold PB. intros -> ->. auto. Qed.
+
+Lemma next_size_bound s : ss_ok s ->
+  exists s' r, next_segment_size s = Some (s', r) /\ min_ss s' = min_ss s /\ max_ss s' = max_ss s /\
+               min_ss s <= r <= Z.min (min_ss s + (max_ss s - min_ss s) / 2 + 1) (max_ss s).
+Proof.
+  intros [H1 H2]. unfold next_segment_size. destruct (cd_rem s =? 0).
+  - unfold next_probe, np_sum2, np_sum1, np_half, np_diff; cbn [min_ss max_ss].
+    replace ((0 <=? max_ss s - min_ss s) && (min_ss s + (max_ss s - min_ss s) / 2 <=? U16_MAX) &&
+             (min_ss s + (max_ss s - min_ss s) / 2 + 1 <=? U16_MAX)) with true
+      by (unfold U16_MAX in *; symmetry; lia).
+    cbn [bind]. eexists _, _. split; [reflexivity|]. cbn [min_ss max_ss]. lia.
+  - eexists _, _. split; [reflexivity|]. cbn [min_ss max_ss]. lia.
+Qed.
+
+Lemma no_live_snoc l g : no_live l -> live_probe g = false -> no_live (l ++ [g]).
+Proof.
+  intros H Hg. apply lp_app. split; [exact H|]. constructor; [|constructor]. rewrite Hg. discriminate.
+Qed.
+
+Lemma segment_loop_aux : forall fuel nagle ss segs remaining rwr ss' segs' rem',
+  ss_ok ss -> segment_loop fuel nagle ss segs remaining rwr = Some (ss', segs', rem') ->
+  Forall seg_time_ok (ss_segs segs) -> no_live (ss_segs segs) -> np_le (min_ss ss) (ss_segs segs) ->
+  min_ss ss' = min_ss ss /\ max_ss ss' = max_ss ss /\
+  segs_aux (PB ss) (min_ss ss) (ss_segs segs').
+Proof.
+  induction fuel as [|x fuel IH]; intros nagle ss segs remaining rwr ss' segs' rem' Hss; cbn [segment_loop].
+  { intro H; injection H as <- <- _. intros. split; [reflexivity|]. split; [reflexivity|]. apply aux_no_live; assumption. }
+  destruct ((0 <? remaining) && (0 <? rwr));
+    [|intro H; injection H as <- <- _; intros; split; [reflexivity|]; split; [reflexivity|]; apply aux_no_live; assumption].
+  destruct (next_size_bound ss Hss) as (ss1 & sz & -> & Hm & Hx & Hsz).
+  assert (Hss1 : ss_ok ss1) by (unfold ss_ok in *; rewrite Hm, Hx; exact Hss).
+  set (payload := Z.min (Z.min sz rwr) remaining).
+  destruct (nagle && _ && _).
+  { intro H; injection H as <- <- _. intros. split; [exact Hm|]. split; [exact Hx|]. apply aux_no_live; assumption. }
+  destruct (Z.ltb_spec (mss ss1) payload) as [Hp|Hp].
+  - intro H; injection H as <- <- _. intros Ht Hn Hnp. split; [exact Hm|]. split; [exact Hx|].
+    unfold enqueue, Segments.set_segs; cbn [ss_segs].
+    apply aux_enqueue; try assumption; cbn [sg_sent sg_size sg_probe]; try reflexivity.
+    + intros _. unfold PB. unfold mss in Hp. unfold payload in *. lia.
+    + discriminate.
+  - intros H Ht Hn Hnp.
+    destruct (IH nagle ss1 (enqueue segs payload false) (remaining - payload) (rwr - payload) ss' segs' rem' Hss1 H)
+      as (A1 & A2 & A3).
+    + unfold enqueue, Segments.set_segs; cbn [ss_segs]. apply Forall_app. split; [exact Ht|].
+      constructor; [|constructor]. unfold seg_time_ok, seg_last_sent; cbn. exact I.
+    + unfold enqueue, Segments.set_segs; cbn [ss_segs]. apply no_live_snoc; [exact Hn|]. reflexivity.
+    + unfold enqueue, Segments.set_segs; cbn [ss_segs]. rewrite Hm. apply Forall_app. split; [exact Hnp|].
+      constructor; [|constructor]. cbn [sg_size sg_probe]. intros _. unfold mss in Hp. lia.
+    + split; [congruence|]. split; [congruence|]. rewrite Hm in A3.
+      destruct A3 as (B1 & B2 & B3 & B4). split; [exact B1|]. split; [exact B2|]. split; [|exact B4].
+      eapply lp_weaken; [|exact B3]. intros z. apply PB_ext; congruence.
+Qed.
+
+Lemma pop_expired_struct t to mr t' pe :
+  pop_expired_mtu_probe t to mr = (t', pe) ->
+  match pe with
+  | PeExpired _ _ => exists g, ss_segs t = ss_segs t' ++ [g]
+  | PeNotExpired => t' = t
+  | PeEmpty => t' = t /\ (forall init g, ss_segs t = init ++ [g] -> live_probe g = false)
+  end.
+Proof.
+  unfold pop_expired_mtu_probe. destruct (last_and_init (ss_segs t)) as [[init0 g0]|] eqn:E.
+  - apply last_and_init_spec in E.
+    assert (Hu : forall init g, ss_segs t = init ++ [g] -> g = g0).
+    { intros init g Hg. rewrite E in Hg. apply app_inj_tail in Hg. symmetry. tauto. }
+    destruct (sg_delivered g0) eqn:Ed.
+    { intro H; injection H as <- <-. split; [reflexivity|]. intros init g Hg. rewrite (Hu _ _ Hg).
+      unfold live_probe. rewrite Ed. apply andb_false_r. }
+    destruct (to && sg_probe g0 && (mr <=? seg_retransmit_count g0)).
+    { intro H; injection H as <- <-. exists g0. cbn [Segments.set_segs ss_segs]. exact E. }
+    destruct (sg_probe g0) eqn:Ep; intro H; injection H as <- <-; [reflexivity|].
+    split; [reflexivity|]. intros init g Hg. rewrite (Hu _ _ Hg). unfold live_probe. rewrite Ep. reflexivity.
+  - intro H; injection H as <- <-. split; [reflexivity|]. intros init g Hg.
+    unfold last_and_init in E. rewrite Hg, rev_app_distr in E. cbn in E. discriminate.
+Qed.
+
+Lemma aux_last_dead q m l :
+  segs_aux q m l -> (forall init g, l = init ++ [g] -> live_probe g = false) -> no_live l.
+Proof.
+  intros (_ & B & _) Hl. destruct l as [|x xs] using rev_ind; [constructor|].
+  rewrite removelast_app_ne in B by discriminate. cbn [removelast] in B. rewrite app_nil_r in B.
+  apply no_live_snoc; [exact B|]. eapply Hl. reflexivity.
+Qed.
+
+(* the only error split can report is the Bug the invariant excludes *)
+Lemma split_err (s s' : vsock) e :
+  split_tx_queue_into_segments cci s = SErr s' e -> e = ErrBug BugInBufferComputations.
+Proof.
+  unfold split_tx_queue_into_segments.
+  destruct (_ =? 0); [discriminate|].
+  match goal with |- context [is_remote_fin_or_later (v_state ?S)] => generalize S end. intro s1.
+  destruct (is_remote_fin_or_later (v_state s1)); [discriminate|].
+  destruct (pop_expired_mtu_probe _ _ _) as [segs1 pe].
+  assert (Hc : forall s2 : vsock,
+    (if Z.of_nat (length (ring (v_tx s))) <? ss_len_bytes (v_segs s2)
+     then SErr s2 (ErrBug BugInBufferComputations)
+     else match segment_loop (ring (v_tx s2)) (o_nagle (v_opts s2)) (v_ss s2) (v_segs s2)
+                  (Z.of_nat (length (ring (v_tx s))) - ss_len_bytes (v_segs s2)) (v_last_remote_window s2) with
+          | None => SPanic
+          | Some (ss', segs', remaining) =>
+              SOk (set_unsegmented (VSockRec.set_segs (set_ss s2 ss') segs') remaining) tt
+          end) = SErr s' e -> e = ErrBug BugInBufferComputations).
+  { intro s2. destruct (_ <? _); [intro H; injection H as _ <-; reflexivity|].
+    destruct (segment_loop _ _ _ _ _ _) as [[[a b] c]|]; discriminate. }
+  destruct pe; [apply Hc|discriminate|apply Hc].
+Qed.
+
+Definition split_post ti tm q (s s' : vsock) : Prop :=
+  vs_x ti tm 0 (fun z => q z \/ PB (v_ss s') z) s' /\ ef strict s' /\ split_rel s s' /\
+  ss_mono (v_ss s) (v_ss s') /\ v_now s' = v_now s /\ v_env_now s' = v_env_now s.
+
+Lemma split_aux ti tm q (s : vsock) :
+  vs_x ti tm 0 q s ->
+  match split_tx_queue_into_segments cci s with
+  | SOk s' _ =>
+      sx (fun z => q z \/ PB (v_ss s') z) s' /\ ss_mono (v_ss s) (v_ss s') /\
+      v_now s' = v_now s /\ v_env_now s' = v_env_now s
+  | _ => True
+  end.
+Proof.
+  intros [Hinv [Haux Hnow]].
+  destruct (inv_parts _ _ _ _ Hinv) as (I1 & I2 & I3 & I4 & I5 & I6 & I7 & I8).
+  assert (Hq : forall ss, segs_aux q (min_ss (v_ss s)) (ss_segs (v_segs s)) ->
+                 segs_aux (fun z => q z \/ PB ss z) (min_ss (v_ss s)) (ss_segs (v_segs s)))
+    by (intros ss; apply aux_weaken; auto).
+  unfold split_tx_queue_into_segments.
+  destruct (_ =? 0).
+  { unfold sx, ss_mono. vsimpl. split; [split; [apply Hq; exact Haux|exact Hnow]|]. split; [lia|auto]. }
+  match goal with |- context [is_remote_fin_or_later (v_state ?S)] => set (s1 := S) end.
+  assert (H1 : v_segs s1 = v_segs s /\ v_ss s1 = v_ss s /\ v_now s1 = v_now s /\ v_env_now s1 = v_env_now s).
+  { unfold s1. destruct (_ && _); [|auto].
+    destruct (grow (v_tx s) (o_tx_max (v_opts s))) as [tx1 g]. destruct g.
+    - destruct (wake_writer tx1) as [tx2 w]. unfold add_wakes. vsimpl. auto.
+    - vsimpl. auto. }
+  clearbody s1. destruct H1 as (Hsg1 & Hss1 & Hnow1 & Henv1).
+  destruct (is_remote_fin_or_later (v_state s1)).
+  { unfold sx, ss_mono. rewrite Hsg1, Hss1, Hnow1, Henv1. split; [split; [apply Hq; exact Haux|exact Hnow]|]. split; [lia|auto]. }
+  destruct (pop_expired_mtu_probe (v_segs s1) _ _) as [segs1 pe] eqn:Epe. rewrite Hsg1 in Epe.
+  pose proof (pop_expired_struct _ _ _ _ _ Epe) as Hst.
+  (* the common continuation *)
+  assert (Hcont : forall s2 : vsock,
+     ss_ok (v_ss s2) -> ss_mono (v_ss s) (v_ss s2) -> min_ss (v_ss s2) = min_ss (v_ss s) ->
+     v_now s2 = v_now s -> v_env_now s2 = v_env_now s ->
+     Forall seg_time_ok (ss_segs (v_segs s2)) -> no_live (ss_segs (v_segs s2)) ->
+     np_le (min_ss (v_ss s2)) (ss_segs (v_segs s2)) ->
+     match (if Z.of_nat (length (ring (v_tx s))) <? ss_len_bytes (v_segs s2)
+            then SErr s2 (ErrBug BugInBufferComputations)
+            else match segment_loop (ring (v_tx s2)) (o_nagle (v_opts s2)) (v_ss s2) (v_segs s2)
+                         (Z.of_nat (length (ring (v_tx s))) - ss_len_bytes (v_segs s2))
+                         (v_last_remote_window s2) with
+                 | None => SPanic
+                 | Some (ss', segs', remaining) =>
+                     SOk (set_unsegmented (VSockRec.set_segs (set_ss s2 ss') segs') remaining) tt
+                 end) with
+     | SOk s' _ =>
+         sx (fun z => q z \/ PB (v_ss s') z) s' /\ ss_mono (v_ss s) (v_ss s') /\
+         v_now s' = v_now s /\ v_env_now s' = v_env_now s
+     | _ => True
+     end).
+  { intros s2 Hok2 Hmono2 Hmin2 Hn2 He2 Ht2 Hnl2 Hnp2.
+    destruct (_ <? _); [exact I|].
+    destruct (segment_loop _ _ _ _ _ _) as [[[ss' segs'] rem']|] eqn:Esl; [|exact I].
+    destruct (segment_loop_aux _ _ _ _ _ _ _ _ _ Hok2 Esl Ht2 Hnl2 Hnp2) as (A1 & A2 & A3).
+    unfold sx, ss_mono in *. vsimpl. rewrite A1, A2.
+    split; [split; [|lia]|split; [lia|auto]].
+    eapply aux_weaken; [|exact A3]. intros z Hz. right. eapply PB_ext; [| |exact Hz]; congruence. }
+  destruct pe as [rewind_to payload_size| |].
+  - destruct Hst as (g & Eg).
+    destruct (failed_ss_ok (v_ss s) payload_size I6) as (F1 & F2 & F3).
+    rewrite Eg in Haux. pose proof (aux_pop _ _ _ _ Haux) as Hnl. apply aux_prefix in Haux.
+    destruct Haux as (T1 & _ & _ & T4).
+    apply Hcont; destruct (seq_gt _ _); vsimpl; rewrite ?Hss1, ?Hnow1, ?Henv1; unfold ss_mono; auto; try lia;
+      try (rewrite F3; exact T4).
+  - subst segs1. unfold sx, ss_mono. vsimpl. rewrite Hsg1, Hss1, Hnow1, Henv1.
+    split; [split; [apply Hq; exact Haux|exact Hnow]|]. split; [lia|auto].
+  - destruct Hst as (-> & Hdead).
+    pose proof (aux_last_dead _ _ _ Haux Hdead) as Hnl. destruct Haux as (T1 & _ & _ & T4).
+    apply Hcont; rewrite ?Hsg1, ?Hss1, ?Hnow1, ?Henv1; unfold ss_mono; auto; lia.
+Qed.
+
+Lemma split_x ti tm q (s : vsock) :
+  vs_x ti tm 0 q s -> ef strict s ->
+  spx strict (split_tx_queue_into_segments cci s) (fun s' _ => split_post ti tm q s s') (fun _ => False).
+Proof.
+  intros Hx Hef. pose proof (split_spec cci strict ti tm s (proj1 Hx) Hef) as Hsp.
+  pose proof (split_aux ti tm q s Hx) as Hau. pose proof (split_err s) as Her.
+  destruct (split_tx_queue_into_segments cci s) as [s' u|s' e|]; cbn [sp spx] in *; [| |exact Hsp].
+  - destruct Hsp as (A1 & A2 & A3). destruct Hau as (B1 & B2 & B3 & B4).
+    unfold split_post. split; [split; [exact A1|exact B1]|]. auto.
+  - rewrite (Her s' e eq_refl) in Hsp. destruct Hsp.
+Qed.
+
 End PollTx.
